@@ -55,7 +55,8 @@ func corrC06(r *Run) {
 	r.Import("Model.ConnRun")
 	r.Rule = "static: every function of package smpp that mentions Conn.pending, as a lock/map action sequence; " +
 		"dynamic (go build -race): README workload (Watch, EnquireLink with 2 ms tick, 1..16 goroutines calling Submit and Send, a consumer of PDU() answering requests, " +
-		"a peer answering asynchronously and sending unsolicited deliver_sm, final Close) with default and custom NextSequence, plus forced schedules of C05, C15 and C16; " +
+		"one caller whose own context times out about when its response arrives, a peer answering asynchronously and sending unsolicited deliver_sm, final Close) " +
+		"with default and custom NextSequence, plus forced schedules of C05, C15 and C16 and schedules in which a response is handed over exactly while the caller's own context ends; " +
 		"non-trivial = workloads with at least two submitting goroutines; distinct by workload label"
 	// ---- static
 	rs, err := connLockRoutines()
@@ -363,6 +364,15 @@ func raceLoadMain() {
 		c16Scenario(scratch, ts, i)
 	}
 	c15Witnesses(scratch)
+	// a response handed to the waiter while the request's own context ends: both branches of Submit's select are ready
+	nr := 40
+	if tier == "thorough" {
+		nr = 400
+	}
+	for i := 0; i < nr; i++ {
+		raceResponseVsContext(rng, ts, i)
+	}
+	sum.Workloads["forced/response-vs-own-context"] += nr
 	sum.Workloads["forced/C05"] += nf
 	sum.Workloads["forced/C15"] += nf
 	sum.Workloads["forced/C16"] += nf
@@ -371,6 +381,39 @@ func raceLoadMain() {
 	}
 	out, _ := json.Marshal(sum)
 	fmt.Println(string(out))
+}
+
+// raceResponseVsContext: Watch hands the response to the waiter while the caller is still inside its transport
+// Write; the caller's own context ends; the Write returns: Submit's select finds its response and its context
+// both ready (either outcome is fine — what matters here is that the two goroutines touch nothing unsynchronised).
+// Variant: the context ends first and the response is taken while the caller leaves.
+func raceResponseVsContext(rng *Rng, ts []pduType, idx int) {
+	w := NewWorld(true)
+	defer w.Shutdown()
+	w.StartWatch()
+	p := genSendable(rng, ts, true, 300)
+	c := w.Go(0, CallSpec{Kind: "submit", Seq: int32(500 + idx), P: p})[0]
+	if w.Stuck != "" {
+		return
+	}
+	resp := frameOf(respFor(p, c.Seq))
+	switch idx % 3 {
+	case 0:
+		w.T.Inject(resp, nil)
+		w.quiesce()
+		c.stop()
+		w.Release(c)
+	case 1:
+		c.stop()
+		w.T.Inject(resp, nil)
+		w.quiesce()
+		w.Release(c)
+	default: // caller already in its select: cancel and response at the same moment
+		w.Release(c)
+		go c.stop()
+		w.T.Inject(resp, nil)
+	}
+	w.WaitUntil(2*time.Second, func() bool { return w.Returned(c) })
 }
 
 // readmeWorkload: the usage the README prescribes, free-running, over an in-memory connection.
@@ -501,6 +544,18 @@ func readmeWorkload(rng *Rng, k, per int, customSeq bool, sum *raceSummary) stri
 			}
 		}(g)
 	}
+	// an impatient caller: its own context ends about when the response arrives
+	subWG.Add(1)
+	go func() {
+		defer subWG.Done()
+		for i := 0; i < per; i++ {
+			ctx, cancel := context.WithTimeout(context.Background(), time.Duration(20+i*7%180)*time.Microsecond)
+			packet := &pdu.SubmitSM{SourceAddr: pdu.Address{No: "1"}, DestAddr: pdu.Address{No: "2"}}
+			_ = packet.Message.Compose("hurry")
+			_, _ = conn.Submit(ctx, packet) // deadline exceeded is an acceptable outcome
+			cancel()
+		}
+	}()
 	finished := make(chan struct{})
 	go func() { subWG.Wait(); close(finished) }()
 	select {
